@@ -133,6 +133,7 @@ type rewriter struct {
 	mapRange map[*ast.RangeStmt]int    // 1 = map, 2 = chan
 	ctxDone  map[*ast.ExprStmt]bool    // statement `<-E.Done()` with E a context
 	sites    map[*ast.SelectorExpr]string
+	idxKind  map[*ast.IndexExpr]int // slice element accesses: 1 = read, 2 = write, 3 = skip (address taken)
 }
 
 func (r *rewriter) info() *types.Info { return r.pkg.TypesInfo }
@@ -168,6 +169,43 @@ func (r *rewriter) prepass() {
 	r.mapRange = map[*ast.RangeStmt]int{}
 	r.ctxDone = map[*ast.ExprStmt]bool{}
 	r.sites = map[*ast.SelectorExpr]string{}
+	r.idxKind = map[*ast.IndexExpr]int{}
+	isSliceIdx := func(x *ast.IndexExpr) bool {
+		t := r.info().TypeOf(x.X)
+		if t == nil {
+			return false
+		}
+		_, ok := t.Underlying().(*types.Slice)
+		return ok
+	}
+	markIdx := func(e ast.Expr, k int) {
+		if x, ok := unparen(e).(*ast.IndexExpr); ok && isSliceIdx(x) {
+			if r.idxKind[x] < k {
+				r.idxKind[x] = k
+			}
+		}
+	}
+	ast.Inspect(r.file, func(n ast.Node) bool {
+		switch x := n.(type) {
+		case *ast.IndexExpr:
+			if isSliceIdx(x) && r.idxKind[x] == 0 {
+				r.idxKind[x] = 1
+			}
+		case *ast.AssignStmt:
+			if x.Tok != token.DEFINE {
+				for _, l := range x.Lhs {
+					markIdx(l, 2)
+				}
+			}
+		case *ast.IncDecStmt:
+			markIdx(x.X, 2)
+		case *ast.UnaryExpr:
+			if x.Op == token.AND {
+				markIdx(x.X, 3)
+			}
+		}
+		return true
+	})
 	ast.Inspect(r.file, func(n ast.Node) bool {
 		switch x := n.(type) {
 		case *ast.ExprStmt:
@@ -376,6 +414,27 @@ func (r *rewriter) rewrite() {
 				pos := r.fset.Position(x.Pos())
 				r.st.Unshimmed = append(r.st.Unshimmed, fmt.Sprintf("%s:%d range over channel", filepath.Base(pos.Filename), pos.Line))
 			}
+		case *ast.IndexExpr:
+			if r.noAccess {
+				return true
+			}
+			k := r.idxKind[x]
+			if k == 0 || k == 3 {
+				return true
+			}
+			pos := r.fset.Position(x.Lbrack)
+			site := fmt.Sprintf("%s:%d []elem", filepath.Base(pos.Filename), pos.Line)
+			fn := "R"
+			if k == 2 {
+				fn = "W"
+				r.st.Writes++
+			} else {
+				r.st.Reads++
+			}
+			r.needShim = true
+			c.Replace(&ast.ParenExpr{X: &ast.StarExpr{X: shimCall(fn,
+				&ast.UnaryExpr{Op: token.AND, X: x},
+				&ast.BasicLit{Kind: token.STRING, Value: strconv.Quote(site)})}})
 		case *ast.SelectorExpr:
 			if r.noAccess {
 				return true
